@@ -491,6 +491,7 @@ const (
 	motifPreserve
 	motifManyRevs
 	motifSubdocShapes
+	motifXattrView
 	numMotifs
 )
 
@@ -692,6 +693,34 @@ func genMotif(r *rand.Rand, m int, in *kvInput, exists map[string]bool, hot []st
 		in.Ops = append(in.Ops, Step{Kind: "expire", Clock: next()})
 		kv(read())
 		kv(inserter())
+	case motifXattrView:
+		// a view over meta.xattrs, and documents whose xattrs have different names, written between two queries:
+		// each document is mapped with ITS xattrs
+		if cn == "s1.c2" {
+			cn = "_default._default"
+		}
+		in.Ops = append(in.Ops, Step{Kind: "putddoc", Coll: cn, Handle: h, DDoc: "dd", Views: []ViewDef{{Name: "v0", Map: pick(r, []int{2, 7})}, {Name: "v1", Map: 1}}, Clock: next()})
+		names := []string{"_sync", "u1", "_vv", "u2"}
+		perm := r.Perm(len(kvKeys))
+		for round := 0; round < 2; round++ {
+			for j, ki := range perm {
+				xv := pick(r, xattrVals)
+				xn := names[(j+round+r.Intn(2))%len(names)]
+				if j == 0 && round == 0 {
+					xn = "_sync"
+				}
+				st := Step{Kind: "kv", Coll: cn, Key: kvKeys[ki], Handle: h, Op: &KOp{Kind: "WriteWithXattrs", CasMode: pick(r, []string{"current", "current", "zero"}), Val: sp(pick(r, jsonBodies)), Xs: []XKV{{Name: xn, Val: &xv}}}, Clock: next()}
+				if r.Intn(4) == 0 {
+					st.Op = &KOp{Kind: "SetXattrs", Xs: []XKV{{Name: xn, Val: &xv}}}
+				}
+				in.Ops = append(in.Ops, st)
+			}
+			view(h, "v0", &ViewParams{})
+			if r.Intn(2) == 0 {
+				kv(&KOp{Kind: "RemoveXattrs", Names: []string{"_sync"}, CasMode: "current"})
+			}
+		}
+		view(h, "v1", &ViewParams{})
 	case motifWithMetaView:
 		if cn == "s1.c2" {
 			cn = "_default._default"
